@@ -255,6 +255,47 @@ fn c32_unchecked_is_safe_to_inspect() {
     core::mem::forget(r);
 }
 
+/// C32 (safe to inspect): from_parts_unchecked with parts of *any* lengths (key 0/31/32/33,
+/// signature 0/63/64/65 bytes, 12-byte payload, all contents symbolic): whatever it returns
+/// Ok for can be inspected without panicking (the assembled packet is at least a full header).
+fn parts_any_lengths<const KL: usize, const SL: usize>() {
+    // key part: zeros (a valid curve point when 32 bytes long, also natively, so that solver
+    // counterexamples replay against the real curve code); everything else symbolic
+    let k = [0u8; KL];
+    let sg: [u8; SL] = kani::any();
+    let payload: [u8; 12] = kani::any();
+    let r = SignedPacket::from_parts_unchecked(&k, &sg, Timestamp::from_micros(kani::any()), &payload);
+    if let Ok(p) = &r {
+        assert!(p.as_bytes().len() >= 104);
+        let _ = p.public_key();
+        let _ = p.signature();
+        let _ = p.timestamp();
+        let _ = p.encoded_packet();
+        let rp = p.to_relay_payload();
+        core::mem::forget(rp);
+    }
+    core::mem::forget(r);
+}
+
+macro_rules! c32parts {
+    ($name:ident, $($kl:expr, $sl:expr);*) => {
+        #[kani::proof]
+        #[kani::unwind(70)]
+        #[kani::stub(vs::curve25519_dalek::edwards::CompressedEdwardsY::decompress, vs::decompress_all_valid)]
+        #[kani::stub(simple_dns::Packet::parse, parse_yes)]
+        #[kani::stub(n0_error::backtrace_enabled, vstubs::backtrace_disabled)]
+        fn $name() {
+            $( parts_any_lengths::<$kl, $sl>(); )*
+        }
+    };
+}
+c32parts!(c32_parts_unchecked_k0_s0, 0, 0);
+c32parts!(c32_parts_unchecked_k32_s0, 32, 0);
+c32parts!(c32_parts_unchecked_k32_s63, 32, 63);
+c32parts!(c32_parts_unchecked_k31_s64, 31, 64);
+c32parts!(c32_parts_unchecked_k32_s52, 32, 52);
+c32parts!(c32_parts_unchecked_exact_and_long_parts, 32, 64; 33, 64; 32, 65; 31, 65; 33, 63);
+
 #[kani::proof]
 #[kani::unwind(70)]
 #[kani::stub(vs::curve25519_dalek::edwards::CompressedEdwardsY::decompress, vs::decompress_oracle)]
